@@ -347,7 +347,7 @@ int main(int argc, char **argv) {
             else if (mode == 2) { prog += "k" + std::to_string(*g::range(0, K_ITEM)) + ":" + std::to_string(*resp) + " "; }
             CaseFile c; c.set("doc", cm::ser_plain(d)); c.set("bytes", bytes); c.set("prog", prog); c.set("expected", cm::ser(d));
             { std::string os; for (auto &x : info.order) { os += x; os += "\n"; } c.set("order", os); }
-            begin_case(c);
+            VH_BEGIN(c);
             if (bytes.size() < 200) sample("prog=[" + prog + "] " + bytes);
             std::string m = run_case(c);
             if (!m.empty()) { record_fail(c, m); RC_FAIL(m); }
